@@ -45,7 +45,10 @@ def abstract_packages(draw, max_models=8, max_ap=5, min_wav=3, max_wav=12, apdep
             'apdep': bool(apdep),
             'logd_step': draw(st.sampled_from([0.02, 0.1, 0.3])),
             'params': {'par1': [100. + 7. * i for i in range(n)], 'LOGL': [-3. + 0.5 * i for i in range(n)]},
-            'cube_dtype': draw(st.sampled_from(['f8', 'f8', 'f4']))}
+            'cube_dtype': draw(st.sampled_from(['f8', 'f8', 'f4'])),
+            # unit the SED files / the cube are STORED in (the abstract fluxes are always mJy)
+            'sed_unit': draw(st.sampled_from(['mJy', 'mJy', 'Jy', 'erg cm-2 s-1', 'ergs/cm^2/s'])),
+            'cube_unit': draw(st.sampled_from(['mJy', 'mJy', 'Jy']))}
 
 
 @st.composite
@@ -119,17 +122,28 @@ def emit(pkg, model_dir, fmt, file_stems=None):
                 if pkg['storage'] == 'desc':
                     midx = midx[::-1]
                 mwav = [w[i] for i in midx]
-            fl = [[pkg['flux'][m][a][i] for i in midx] for a in range(nap)]
-            er = [[pkg['err'][m][a][i] for i in midx] for a in range(nap)]
+            unit = pkg.get('sed_unit', 'mJy')
+            if unit == 'mJy':
+                fac = [1.] * len(mwav)
+            elif unit == 'Jy':
+                fac = [1e-3] * len(mwav)
+            else:   # nu F_nu in erg/cm^2/s: 1 mJy = 1e-26 erg/s/cm^2/Hz
+                fac = [1e-26 * om.C_UM_HZ / w for w in mwav]
+            fl = [[pkg['flux'][m][a][i] * fac[p] for p, i in enumerate(midx)] for a in range(nap)]
+            er = [[pkg['err'][m][a][i] * fac[p] for p, i in enumerate(midx)] for a in range(nap)]
+            legacy = unit == 'ergs/cm^2/s'
             pkgio.write_sed_file(os.path.join(model_dir, 'seds', name + '_sed.fits'), name, mwav, pkgio.wav_to_nu(mwav),
-                                 pkg['apertures'], fl, er)
+                                 pkg['apertures'], fl, er, flux_unit=unit,
+                                 wav_unit='MICRONS' if legacy else 'um', nu_unit='HZ' if legacy else 'Hz')
         pkgio.write_parameters(model_dir, names, pkg['params'], order=pkg['perm'])
     else:
-        val = [[[pkg['flux'][m][a][i] for i in idx] for a in range(nap)] for m in range(n)]
-        unc = [[[pkg['err'][m][a][i] for i in idx] for a in range(nap)] for m in range(n)]
+        cfac = 1e-3 if pkg.get('cube_unit', 'mJy') == 'Jy' else 1.
+        val = [[[pkg['flux'][m][a][i] * cfac for i in idx] for a in range(nap)] for m in range(n)]
+        unc = [[[pkg['err'][m][a][i] * cfac for i in idx] for a in range(nap)] for m in range(n)]
         import numpy as np
         pkgio.write_cube(os.path.join(model_dir, 'flux.fits'), names, swav, pkg['apertures'], val, unc,
-                         dtype=np.float64 if pkg['cube_dtype'] == 'f8' else np.float32)
+                         dtype=np.float64 if pkg['cube_dtype'] == 'f8' else np.float32,
+                         val_unit=pkg.get('cube_unit', 'mJy'))
         pkgio.write_parameters(model_dir, names, pkg['params'])   # cube format: same order as the cube
 
 
